@@ -332,14 +332,14 @@ def stage(scratch, tier, log):
     nver = res.get("verified", 0)
     for (n, f) in decl:
         if compile_err or js is None or (rc != 0 and not errs):
-            obs.append(Obligation(n, "verus/z3", UNDECIDED, secs / len(decl), functions=[f],
+            obs.append(Obligation(n, "verus-0.2026.09.13/z3", UNDECIDED, secs / len(decl), functions=[f],
                                   detail="Verus did not get as far as verification (construct outside the rewrites / changed names): "
                                          + (compile_err.group(0) if compile_err else out[-300:]), output=out[-3000:]))
         elif n in bad_fns or (None in bad_fns):
-            obs.append(Obligation(n, "verus/z3", FAILED, secs / len(decl), functions=[f], kind="complete",
+            obs.append(Obligation(n, "verus-0.2026.09.13/z3", FAILED, secs / len(decl), functions=[f], kind="complete",
                                   detail="; ".join(bad_fns.get(n, bad_fns.get(None, [])))[:900], output=out[-4000:]))
         else:
-            obs.append(Obligation(n, "verus/z3", DISCHARGED if nver > 0 else UNDECIDED, secs / len(decl), functions=[f], kind="complete",
+            obs.append(Obligation(n, "verus-0.2026.09.13/z3", DISCHARGED if nver > 0 else UNDECIDED, secs / len(decl), functions=[f], kind="complete",
                                   checks=max(1, nver // len(decl)),
                                   detail="all sizes; real body after rewrites R1-R6 (vlib/tierc_kernel.py); invariants derived from the text"))
     if any(o.status in (UNDECIDED, FAILED) for o in obs):
